@@ -32,6 +32,8 @@ SecondClauses(e) ==
   (IF e.raised = 1 THEN {"SecondCallTotal"} ELSE {})
   \cup (IF e.raised = 0 /\ e.first_unchanged = 0 THEN {"ResultsNotOverwrittenByLaterCalls"} ELSE {})
   \cup (IF e.raised = 0 /\ e.freshexp > -6 THEN {"SecondCallEqualsFreshObject"} ELSE {})
+  \cup (IF e.raised = 0 /\ e.conv_same = 0 THEN {"SecondCallEqualsFreshObject"} ELSE {})     \* also in its reported status
+  \cup (IF e.raised = 0 /\ e.third_flagged = 0 THEN {"FaultFlagged"} ELSE {})                 \* a failing later run is not reported converged
 Step(e) ==
   CASE e.op = "start" -> /\ m' = LoopInit("fixed") /\ N' = e.num_iter
                          /\ (IF MBOk(e) THEN TRUE ELSE Bad(e, "MassBalance"))
